@@ -476,7 +476,17 @@ impl crate::interface::Interface for Tiny2 {
         self.nb += 1;
         Ok(())
     }
-    fn send_repeated_pixel<const N: usize>(&mut self, _pixel: [u8; N], _count: u32) -> Result<(), MockError> { self.bad = true; Ok(()) }
+    /// a burst of `count` equal pixels (a legitimate way to send a block of one colour)
+    fn send_repeated_pixel<const N: usize>(&mut self, pixel: [u8; N], count: u32) -> Result<(), MockError> {
+        if self.armed != 3 || N != 2 || count > 2 { self.bad = true; }
+        self.armed = 0;
+        let p = [pixel[0], pixel[1 % N]];
+        let cur = Burst { sx: u16::from_be_bytes([self.caset[0], self.caset[1]]), ex: u16::from_be_bytes([self.caset[2], self.caset[3]]),
+                          sy: u16::from_be_bytes([self.raset[0], self.raset[1]]), ey: u16::from_be_bytes([self.raset[2], self.raset[3]]), n: count, px: [p, p] };
+        if self.nb < 2 { self.b[self.nb as usize] = cur; } else { self.bad = true; }
+        self.nb += 1;
+        Ok(())
+    }
 }
 /// BOUNDED stand-in (2 pixels, 240 x 320 panel, default configuration, batch mode): the bursts, read window by window in
 /// row-major order, are exactly the in-bounds pixels of the stream in stream order - which is what applying set_pixel
@@ -526,7 +536,7 @@ fn c03_batch_two_pixels() {
         }
     }
     let which: u8 = kani::any();
-    if which == 0 { kani::assert(framing_ok, "C08: malformed window / burst framing"); }
+    if which == 0 { kani::assert(framing_ok, "C08: C03: malformed window / burst framing"); }
     if which == 1 && framing_ok { kani::assert(ng == nw && (nw < 1 || got[0] == want[0]) && (nw < 2 || got[1] == want[1]), "C03: C02: the bursts are not the in-bounds pixels in stream order"); }
     if which == 2 && framing_ok && nw == 2 && want[1].1 == want[0].1 && want[1].0 == want[0].0 + 1 { kani::assert(d.di.nb == 1, "C20: two adjacent pixels of a row must share one window"); }
     kani::cover!(nw == 2 && d.di.nb == 1 && b0.ey > b0.sy);
